@@ -1,4 +1,5 @@
 #include "core.hpp"
+#include <crab/types/varname_factory.hpp>
 #include "absval.hpp"
 #include "hooks.hpp"
 #include <crab/domains/abstract_domain_params.hpp>
@@ -34,6 +35,9 @@ std::vector<std::string> domains_with(unsigned must, unsigned must_not, bool cor
 // All knobs are reset to crab's defaults first, so that a case never
 // inherits settings from an earlier case of the same process.
 void apply_knobs(const Case &c) {
+  // hook H4: the process-wide name factory of the term / region domains starts afresh
+  // (no abstract value is alive between two cases)
+  crab::var_factory_impl::str_var_alloc_col::verif_reset();
   auto &p = crab::domains::crab_domain_params_man::get();
   p = crab::domains::crab_domain_params();
   if (c.params.has("knobs"))
